@@ -71,7 +71,7 @@ def r1_r2(ctx, Fs):
             ctx.check('C11.R2', 'sign-map@' + cfg, flip != 0 and got == {-1: -1, 0: 0, 1: 1}, 'determinant negative/zero/positive -> %s' % [got[-1], got[0], got[1]],
                       '-1.0 / 0.0 / +1.0 for negative / zero / positive determinant', w, key_extra='sign:%s:%s' % (cfg, [got[-1], got[0], got[1]]))
             continue
-        poly, chain = c10.find_poly(v)
+        poly, chain = c10.find_poly_or_gated(v)
         if poly is None or I.single_atom(poly) is not None:
             ctx.incomplete('C11.R1', 'polynomial@' + cfg, 'returned value %s is not sign-extraction(polynomial)' % repr(v)[:160], w)
             continue
@@ -86,14 +86,32 @@ def r1_r2(ctx, Fs):
             leaves = dtab.b_leaves(as_rf(v))
             subj = None
             for l in leaves.values():
-                subj = dtab.is_discr_eq(l)[0]
+                if dtab.is_discr_eq(l) is not None:
+                    subj = dtab.is_discr_eq(l)[0]
             table = {}
             for val, nm in names.items():
                 def valuation(leaf, val=val):
                     d = dtab.is_discr_eq(leaf)
+                    if d is None:
+                        return False          # a zero test inside the determinant (gated assembly, decided by C10.R1's identity): irrelevant for the sign map
                     k = d[1] if d[1] < 128 else d[1]
                     return (k == val) == d[2]
-                r = dtab.evaluate(as_rf(v), valuation)
+                # walk the match on the sign only (its subject may itself contain conditionals: they are not touched)
+                def holds(c, valuation=valuation):
+                    if c.op == 'not':
+                        return not holds(c.args[0])
+                    if c.op == 'and':
+                        return holds(c.args[0]) and holds(c.args[1])
+                    if c.op == 'or':
+                        return holds(c.args[0]) or holds(c.args[1])
+                    if c.op == 'const':
+                        return c.args[0]
+                    return valuation(c)
+                r = None
+                for conds_, leaf_ in cases(as_rf(v)):
+                    if all(holds(c) for c in conds_):
+                        r = leaf_
+                        break
                 table[nm] = r.const_value() if isinstance(r, RF) and r.is_const() else repr(r)
             want = {}
             for nm in table:
